@@ -638,10 +638,16 @@ def ap_histories(trace, ranks, starts):
     return out, rank
 
 
-def run_netscripts(chk, n, nn_choices, length, weights, tag, extra_monitor=None, focus="all"):
+def run_netscripts(chk, n, nn_choices, length, weights, tag, extra_monitor=None, focus="all", fixed=()):
     """Runs sequential scripts on fabric and model; compares dial results at every Dial and
     listings / reachability at every Quiesce. Returns per-script records for extra monitors."""
     scen, models, metas = [], [], []
+    # fixed = scripts given by the caller (nodes, ops), run in front of the random ones
+    for nodes, ops in fixed:
+        sc, marks, epos = net_scenario(chk.rng, nodes, ops, False)
+        scen.append(sc)
+        models.append(model_case(nodes, ops))
+        metas.append((nodes, ops, marks, epos))
     for _ in range(n):
         rng = chk.rng
         nn = rng.choice(nn_choices)
@@ -1736,13 +1742,24 @@ def mgr_trace_case(trace, node):
                 # the model's Submit is the moment the request enters the mailbox ("submitted"; a caller may wait for
                 # room in a bounded mailbox first) or the moment the call finds the receiver gone
                 facts["submitted"] += 1
+                nxt = lines[i + 1] if i + 1 < len(lines) else []
+                at_once = len(nxt) > 3 and nxt[1] == "api" and nxt[2] == own and nxt[3] == "submitted" and nxt[4] == f[4]
                 if finished:
                     toks.append("S:%s:0" % k)
-                else:
+                elif not at_once:
+                    # the bounded mailbox is full: the caller waits for room (Shutdown.Issue); its request enters the
+                    # mailbox at "submitted" (Shutdown.Admit), or the manager finishes first and the call fails with the rest
+                    toks.append("W:%s" % k)
                     waiting[k] += 1
+                    facts["waited"] = facts.get("waited", 0) + 1
             elif f[3] == "submitted":
-                toks.append("S:%s:1" % k)
-                waiting[k] -= 1
+                prev = lines[i - 1] if i > 0 else []
+                at_once = len(prev) > 3 and prev[1] == "api" and prev[2] == own and prev[3] == "submit" and prev[4] == f[4]
+                if at_once:
+                    toks.append("S:%s:1" % k)
+                else:
+                    toks.append("M:%s" % k)
+                    waiting[k] -= 1
             elif f[3] == "answered":
                 facts["answered_ok" if kv["ok"] == "true" else "answered_err"] += 1
         elif cat == "mgr" and f[2] == own:
@@ -1778,11 +1795,8 @@ def mgr_trace_case(trace, node):
                 in_cleanup = False
             elif ev == "finish":
                 toks.append("F")
-                # the receiver is gone: calls still waiting for room in the mailbox fail now
+                # the receiver is gone: calls still waiting for room in the mailbox fail with it (Shutdown.finish_calls)
                 finished = True
-                for k2 in ("c", "s"):
-                    toks += ["S:%s:0" % k2] * waiting[k2]
-                    waiting[k2] = 0
         elif cat == "handler" and kv.get("id") in hid:
             h = hid[kv["id"]]
             toks.append({"req-start": "q+:%d", "req-end": "q-:%d", "drained": "A:%d"}[f[3]] % h)
@@ -1885,6 +1899,7 @@ def c08(chk):
         chk.evaluations += 1
         chk.count("manager-trace-events", len(tc.split()) - 1)
         chk.count("requests-accepted-after-endpoint-close", f["late_requests"])
+        chk.count("calls-that-waited-for-mailbox-room", f.get("waited", 0))
         mf = fields(m)
         ev0 = [c for c, x in zip([c.strip() for c in sc[len("simnet "):].split(" ; ")][1:], res) if c == "events 0"]
         lost_impl = len([e for e in res[[c.strip() for c in sc[len("simnet "):].split(" ; ")][1:].index("events 0")].strip("[]").split(",") if e.startswith("-")])
